@@ -309,10 +309,44 @@ func extractStructure(e *env, f *facts) {
 		}
 	}
 	f.Bool["cmapShardLocks"] = cmOK
+	// ConcurrentMap: the shard table (and with it each shard's mutex) is assigned in the constructor only
+	shardsFixed := true
+	for name, fn := range p.funcs {
+		if name == "NewConcurrentMap" || fn.Body == nil {
+			continue
+		}
+		ast.Inspect(fn.Body, func(n ast.Node) bool {
+			if as, ok := n.(*ast.AssignStmt); ok {
+				for _, l := range as.Lhs {
+					if strings.Contains(src(p, l), ".shardings") {
+						shardsFixed = false
+					}
+				}
+			}
+			return true
+		})
+	}
+	f.Bool["cmapShardTableFixed"] = shardsFixed
 
 	// doWrite: the closed test is the first statement after the lock pair and exempts only the Close opcode
 	dw := p.fn("Conn.doWrite")
 	f.Bool["doWriteClosedCheckUnderLock"] = len(dw.Body.List) > 2 && stmtIs(p, dw.Body.List[2], "if opcode != OpcodeCloseConnection && c.isClosed() { return ErrConnClosed }")
+
+	// a Close opcode handed to the generic write APIs takes the close path (CAS first), not doWrite
+	routes := true
+	if fn, ok := p.funcs["Conn.WriteMessage"]; !ok || len(fn.Body.List) == 0 || !stmtIs(p, fn.Body.List[0], "if opcode == OpcodeCloseConnection { return c.closeViaWrite(payload) }") {
+		routes = false
+	}
+	if fn, ok := p.funcs["Conn.Writev"]; !ok || len(fn.Body.List) == 0 || !stmtIs(p, fn.Body.List[0], "if opcode == OpcodeCloseConnection { return c.closeViaWrite(bytes.Join(payloads, nil)) }") {
+		routes = false
+	}
+	if fn, ok := p.funcs["Conn.closeViaWrite"]; !ok || len(fn.Body.List) == 0 || !stmtIs(p, fn.Body.List[len(fn.Body.List)-1], "return c.WriteClose(code, body)") {
+		routes = false
+	}
+	if fn, ok := p.funcs["Broadcaster.Broadcast"]; !ok || !strings.Contains(strings.Join(strings.Fields(src(p, fn.Body)), ""), "ifc.opcode==OpcodeCloseConnection{_=socket.closeViaWrite(c.payload)}else{varerr=c.writeFrame(socket,msg.frame)") {
+		routes = false
+	}
+	f.Bool["closeOpcodeTakesClosePath"] = routes
 
 	// Broadcaster.writeFrame: position of the isClosed test relative to socket.mu.Lock()
 	wf := p.fn("Broadcaster.writeFrame")
